@@ -12,7 +12,7 @@ REAL = ['onl.sim.core.Environment', 'onl.sim.events.Event/Timeout/Process/Initia
 STUBS = ['process bodies and plain callbacks are harness code']
 ASSUMPTIONS = ['registration order of process waiters is the G order of the bodies\' "about to yield" logs',
                'no condition events in C02 programs (C05 owns them)']
-PROBES = ['failure_of_a_kernel_signal_class', 'conditions_among_waiters', 'chained_trigger', 'trigger_door_on_triggered_event', 'driven_by_run_until_event', 'until_event_failed', 'event_ge3_waiters', 'failed_mixed_handling', 'reyield_processed_failed', 'child_failure_no_joiner',
+PROBES = ['thousand_processed_events_consumed_back_to_back', 'failure_of_a_kernel_signal_class', 'conditions_among_waiters', 'chained_trigger', 'trigger_door_on_triggered_event', 'driven_by_run_until_event', 'until_event_failed', 'event_ge3_waiters', 'failed_mixed_handling', 'reyield_processed_failed', 'child_failure_no_joiner',
           'double_trigger', 'detached_by_interrupt', 'unhandled_escape', 'reyield_processed_ok']
 
 
@@ -55,6 +55,20 @@ def gen(rng, tier):
                 plan.append(['until', case['t0'] + rng.choice([0.5, 1, 2, 3])])
         plan.append(['run'])
         case['drive'] = plan
+    if rng.random() < 1 / 400 and case.get('drive', [['run']]) == [['run']]:
+        # a long tail: one process collects the outcomes of more than a thousand children that have all finished already
+        # (returned or raised), one join after the other without the clock moving
+        n = rng.randint(1050, 1400)
+        kids, joins = [], []
+        for j in range(n):
+            cid = 'jk%d' % j
+            if rng.random() < 0.2:
+                kids.append({'k': 'proc', 'id': cid, 'ops': [{'op': 'raise', 'exc': ['KeyError', [j]]}]})
+            else:
+                kids.append({'k': 'proc', 'id': cid, 'ops': [{'op': 'ret', 'v': 100000 + j}]})
+            joins.append({'op': 'join', 'p': cid, 'h': 'cont'})
+        case['setup'] = case['setup'] + [{'k': 'proc', 'id': 'jc', 'ops': [{'op': 'timeout', 'd': 1, 'v': 0, 'h': 'cont'}] + joins}] + kids
+        case['many_joins'] = True
     if rng.random() < 0.08:
         # the uncaught exception of a process (or the failure of a shared event) is of one of the kernel's own signal
         # classes, and the simulation is driven by the real run() / run(until=t): the failure must come out of run()
@@ -349,7 +363,8 @@ def run(case):
     from ..core import san
     w = setup_world(case)
     env = w.env
-    steps = drive(w, case.get('drive', [['run']]), max_steps=4000)
+    cap = 14000 if case.get('many_joins') else 4000
+    steps = drive(w, case.get('drive', [['run']]), max_steps=cap)
     final = {}
     for pid, p in w.procs.items():
         alive = p.is_alive
@@ -358,7 +373,7 @@ def run(case):
         except AttributeError:
             ok, val = None, '<unavailable>'
         final[pid] = (alive, ok, val)
-    quiescent = env.peek() == float('inf') and steps < 4000
+    quiescent = env.peek() == float('inf') and steps < cap
     ch = None
     if any(r[0] == 'K' for r in env.log):
         # how a condition treats the failure of an operand (handled / unhandled / lenient) comes from the C05 model
@@ -367,6 +382,8 @@ def run(case):
     viol, stats, nontrivial = check(env.log, _values(case), final, quiescent, cond_handling=ch)
     if ch is not None:
         stats['conditions_among_waiters'] = 1
+    if case.get('many_joins'):
+        stats['thousand_processed_events_consumed_back_to_back'] = 1
     if case.get('ctl_exc'):
         stats['failure_of_a_kernel_signal_class'] = 1
         viol += check_real_runs(env.log)
